@@ -1,7 +1,7 @@
 package main
 
 // C01, framing only: whatever the requests contain, the proxy writes exactly one reply for each.
-//   case line:  <n> <token> # <request> ; <request> ; ...      (n requests, every command name the proxy or Redis knows,
+//   case line:  <n> <token> [slow|late] # <request> ; <request> ; ...   (slow: 600 ms nodes behind a 250 ms idle timeout; late: a node answering after 3.3 s)      (n requests, every command name the proxy or Redis knows,
 //               arguments with CR LF and reply look-alikes in every position)
 //   the client writes the n requests and then GET <sentinel key>, whose value is <token> (set beforehand over another
 //   connection); it reads replies until one is the bulk string <token>
@@ -28,21 +28,66 @@ func init() {
 		if !sp.waitSlotsLoaded(1) {
 			die("slots not loaded")
 		}
+		// a second service over the same cluster whose idle timeout (250 ms) is shorter than the nodes' answers in "slow" cases
+		simProxyIdle = 250 * time.Millisecond
+		spSlow := startRedisProxy([]string{cl.nodes[0].addr, cl.nodes[1].addr}, 0)
+		simProxyIdle = 0
+		defer stopProxy(spSlow)
+		spSlow.waitSlotsLoaded(1)
+		spFast := sp
 		run := func(line string) string {
 			hd := strings.SplitN(line, " # ", 2)
 			f := strings.Fields(hd[0])
 			token := []byte(f[1])
-			setup := dialProxy(sp.addr)
+			sp := spFast
+			late := len(f) > 2 && f[2] == "late"
+			if late {
+				// a node that answers after 3.3 s: the one reply is the node's
+				defer func() {
+					cl.mu.Lock()
+					for _, nd := range cl.nodes {
+						nd.delayMs = 0
+					}
+					cl.mu.Unlock()
+				}()
+			}
+			if len(f) > 2 && f[2] == "slow" {
+				// the nodes answer after 600 ms: a request is not idleness, the connection stays
+				sp = spSlow
+				cl.mu.Lock()
+				for _, nd := range cl.nodes {
+					nd.delayMs = 600
+				}
+				cl.mu.Unlock()
+				defer func() {
+					cl.mu.Lock()
+					for _, nd := range cl.nodes {
+						nd.delayMs = 0
+					}
+					cl.mu.Unlock()
+				}()
+			}
+			setup := dialProxy(spFast.addr)
 			setup.send(bulkArr([]byte("set"), []byte("sentinel:key"), token).bytes(), nil)
 			if _, err := setup.recv(3 * time.Second); err != nil {
 				setup.close()
 				return "SETUP-FAILED"
 			}
 			setup.close()
+			if late {
+				cl.mu.Lock()
+				for _, nd := range cl.nodes {
+					nd.delayMs = 3300
+				}
+				cl.mu.Unlock()
+			}
 			sc := dialProxy(sp.addr)
 			defer sc.close()
 			var buf []byte
 			for _, it := range strings.Split(hd[1], " ; ") {
+				if strings.TrimSpace(it) == "" || strings.TrimSpace(it) == "-" {
+					continue
+				}
 				pos := 0
 				buf = append(buf, wvOfTokens(strings.Fields(it), &pos).bytes()...)
 			}
@@ -50,7 +95,7 @@ func init() {
 			sc.send(buf, nil)
 			got := 0
 			for {
-				v, err := sc.recv(time.Duration(float64(3*time.Second) * loadFactor))
+				v, err := sc.recv(time.Duration(float64(3*time.Second)*loadFactor) + 4*time.Second)
 				if err != nil {
 					if strings.Contains(err.Error(), "timeout") || strings.Contains(err.Error(), "EOF") {
 						return fmt.Sprintf("TIMEOUT after %d replies", got)
@@ -78,6 +123,8 @@ func init() {
 			return
 		}
 		r := newRng(*fSeed)
+		emit(fmt.Sprintf("2 tok%d_slow slow # %s ; %s", *fSeed, bulkArr([]byte("get"), []byte("k1")).String(), bulkArr([]byte("set"), []byte("k2"), []byte("v")).String()))
+		emit(fmt.Sprintf("0 tok%d_late late # -", *fSeed))
 		// every command name once with hostile arguments, then random sequences
 		mk := func(name string) string {
 			args := [][]byte{mixCase(r, name)}
